@@ -229,12 +229,13 @@ def verify_target(target, contract_dirs, config=None, root=None, solve=True) -> 
         index = SourceIndex(root)
         contracts = ContractIndex(index, contract_dirs)
         c = contracts.by_target[target]
-        cfg = {'attr_types': {}, 'class_invariants': {}}
+        cfg = {'attr_types': {}, 'class_invariants': {}, 'ghost_arrays': {}}
         for mn, mc in contracts.configs.items():
             cfg['attr_types'].update(mc.get('attr_types', {}))
             cfg['class_invariants'].update(mc.get('class_invariants', {}))
+            cfg['ghost_arrays'].update(mc.get('ghost_arrays', {}))
         for k_, v_ in contracts.configs.get(c.module.name, {}).items():
-            if k_ not in ('attr_types', 'class_invariants'):
+            if k_ not in ('attr_types', 'class_invariants', 'ghost_arrays'):
                 cfg[k_] = v_
         cfg.update(config or {})
         cfg = resolve_config(index, cfg)
